@@ -2,7 +2,7 @@
 HOOK_COMMITS = ["400b3e9"]
 ENGINES = [
     dict(name="driver", path="vf/driver.py", serves_properties=[], kind_free_text="builds targets against /repo's current tree, runs shards on 16 cores, merges reports, known-findings logic, evidence writer"),
-    dict(name="corpus+slots", path="vf/gen.py harness/engine.hpp harness/corpus_main.hpp model/peg_model.hpp", serves_properties=["C01", "C02", "C04", "C05", "C06", "C08", "C09", "C12", "C13"], kind_free_text="generate-compile-run grammar corpus and slot shapes, observer control with match() wrapper, reference PEG model, rapidcheck scripts"),
+    dict(name="corpus+slots", path="vf/gen.py harness/engine.hpp harness/corpus_main.hpp model/peg_model.hpp", serves_properties=["C01", "C02", "C04", "C05", "C06", "C08", "C09", "C11", "C12", "C13"], kind_free_text="generate-compile-run grammar corpus and slot shapes, observer control with match() wrapper, reference PEG model, rapidcheck scripts"),
     dict(name="bounds sweep + libFuzzer", path="targets/c03_bounds.cpp", serves_properties=["C03"], kind_free_text="one source built as ASan boundary sweep and as libFuzzer target; rule table of 79 rules x 4 input classes; window-hook and metamorphic oracle inside the target"),
     dict(name="zoo", path="targets/c02_zoo.cpp", serves_properties=["C02", "C03", "C06"], kind_free_text="rule zoo: every hand-written match() rule in rewinding contexts on exhaustive short inputs, invariants from the observer control"),
     dict(name="enumerators+rapidcheck", path="targets/", serves_properties=["C10", "C14", "C15", "C16", "C17", "C18", "C19", "C20"], kind_free_text="total enumeration of finite spaces plus rapidcheck generators, explicit independent oracles"),
@@ -65,6 +65,12 @@ CLAIMS = {
         text="Exploration, exhaustive where the space allows: all bytes for ~60 byte-class rules, istring<C> for all C, all 1-3 byte UTF-8 sequences and a boundary lattice (thorough: all) of 4-byte ones, all UTF-16 units with boundary (thorough: all surrogate-lead) second units, UTF-32 and uint32 boundary+strided (thorough: all 2^32), all uint16 values, structured+random uint64 values; consumed==N iff the unit is well formed and in the documented set. Candidates are followed by bytes that would complete a truncated unit, so reads beyond the logical end change the verdict.",
         design_ref="DESIGN.md section 2 C10",
         note="Trusted: the reference decoders in targets/c10_classes.cpp (typed from the standard), the finite family of template parameters."),
+    "C11": dict(
+        engine="corpus+slots",
+        technique="unfiltered generated grammars + systematic ill-formed family; dynamic no-progress witnesses from an instrumented reference interpreter (on-stack set), confirmed by a fuel/depth-limited real run, compared with analyze<G>(-1)",
+        text="Exploration: several hundred (thorough: thousands) random unfiltered grammars and ~680 systematically ill-formed ones (nullable bodies under every repetition incl. raw_string contents; left recursion through every combinator position, behind nullable prefixes, and indirect); a grammar is judged only when the reference model finds a cycle without progress on some input up to length 4/5 AND the real parser indeed fails to terminate there; then analyze must report at least one problem. Found the sor short-circuit defect (fixed, 63f24e5).",
+        design_ref="DESIGN.md section 2 C11",
+        note=CORPUS_NOTE + " Absence of unsound certifications cannot be shown, only searched."),
     "C12": dict(
         engine="corpus+slots",
         technique="generated grammars x generated selectors/transformers; returned parse tree compared structurally with the reference model's derivation tree; exhaustive short inputs + rapidcheck slot scripts",
